@@ -7,8 +7,11 @@ from harness.impl_loc import impl_loc_op, enc_loc
 ID = "C01"
 LEAN_MODULE = "BioCantor.Props.C01"
 DESIGN_REF = "4/C01"
-EXTRA_LEAN_MODULES = ["BioCantor.Props.C01Ties"]   # Gen kernels (regenerated from source) = hand-written model
-GEN_NEEDS = ["SingleInterval_", "Strand_"]
+# Gen kernels (regenerated from source) = hand-written model; C01Ties2 = the block loops of CompoundInterval
+EXTRA_LEAN_MODULES = ["BioCantor.Props.C01Ties", "BioCantor.Props.C01Ties2"]
+GEN_NEEDS = ["SingleInterval_", "Strand_", "CompoundInterval_scan_blocks", "CompoundInterval_parent_to_relative_pos",
+             "CompoundInterval_relative_to_parent_pos", "CompoundInterval_relative_interval_to_parent_location",
+             "CompoundInterval_is_overlapping", "CompoundInterval_has_overlap"]
 DRIVER = "drivers/C01.lean"
 SPEC_DRIVER = "drivers/SpecC01.lean"
 DRIVER_MODULES = ["BioCantor.Driver.Main", "BioCantor.Driver.Loc"]
@@ -18,11 +21,26 @@ RULE = ("exhaustive small layouts (see exhaustive_scope) x every position / sub-
         "answered ok; distinct = distinct operation lines")
 EXHAUSTIVE_NOTE = ""
 TRUSTED = ["Model/Location.lean is hand-written; tied to location_impl.py by this run's correspondence",
-           "Gen/Kernels.lean (SingleInterval kernels) regenerated from source and proved equal to the model"]
+           "Gen/Kernels.lean (SingleInterval kernels and the CompoundInterval block loops) regenerated from source, "
+           "proved equal to the model (Props/C01Ties, C01Ties2) and executed against the real library (ops gp2r/gr2p/grelint)",
+           "GenPrelude.lean: the CI view of a parent-less CompoundInterval (guarded by translate.py: ci_view_guards)"]
 ASSUMPTIONS = ["locations without parents (parent gates are C02/C04)",
                "coordinates are non-negative ints; Python ints modelled as unbounded Int/Nat"]
 MODEL_OPS = None
 STRANDS = ["+", "-"]
+G_OPS = {"gp2r", "gr2p", "grelint"}
+G_TWIN = {"p2r": "gp2r", "r2p": "gr2p", "relint": "grelint"}
+
+
+def _with_twins(lines, run, share):
+    """every line, plus — for a `share` of the p2r/r2p/relint lines — the twin line whose model answer comes from the
+    GENERATED kernels (same real-library call on the implementation side)"""
+    for ln in lines:
+        yield ln
+        op, _, rest = ln.partition(" ")
+        if op in G_TWIN and run.rng.random() < share:
+            run.count("gen-twin:" + G_TWIN[op])
+            yield f"{G_TWIN[op]} {rest}"
 
 
 def impl(line):
@@ -33,6 +51,8 @@ def spec_skip(line):
     """Spec.bases materialises every covered position: skip the spec on huge coordinates / many blocks
     (those cases are compared against the model only)."""
     t = line.split()
+    if t[0] in G_OPS:      # answered by the generated kernels on the model side; the spec judges the twin p2r/r2p/relint line
+        return True
     return len(t) > 400 or any(len(x) > 4 for x in t[2:])
 
 
@@ -63,6 +83,10 @@ def _ops_for(kind, st, blocks, run, dense=True):
 
 
 def cases(run):
+    yield from _with_twins(_cases(run), run, 0.25 if run.tier == "quick" else 0.5)
+
+
+def _cases(run):
     global EXHAUSTIVE_NOTE
     scopes = [(2, 5), (3, 3)] if run.tier == "quick" else [(2, 7), (3, 5), (4, 3)]
     EXHAUSTIVE_NOTE = "all layouts (incl. zero-length, adjacent, nested, duplicate blocks) with " + ", ".join(
